@@ -131,6 +131,16 @@ func buildSimFile() protoreflect.FileDescriptor {
 		Package:    proto.String("sim.v1"),
 		Syntax:     proto.String("proto3"),
 		Dependency: []string{"vanguard/test/v1/test.proto", "google/api/annotations.proto", "google/api/httpbody.proto"},
+		MessageType: []*descriptorpb.DescriptorProto{{
+			// an upload: raw bytes (HttpBody) in the body, everything else in the path and the query
+			Name: proto.String("UploadRequest"),
+			Field: []*descriptorpb.FieldDescriptorProto{
+				{Name: proto.String("name"), Number: proto.Int32(1), Type: descriptorpb.FieldDescriptorProto_TYPE_STRING.Enum(), Label: descriptorpb.FieldDescriptorProto_LABEL_OPTIONAL.Enum(), JsonName: proto.String("name")},
+				{Name: proto.String("revision"), Number: proto.Int32(2), Type: descriptorpb.FieldDescriptorProto_TYPE_INT32.Enum(), Label: descriptorpb.FieldDescriptorProto_LABEL_OPTIONAL.Enum(), JsonName: proto.String("revision")},
+				{Name: proto.String("file"), Number: proto.Int32(3), Type: descriptorpb.FieldDescriptorProto_TYPE_MESSAGE.Enum(), TypeName: proto.String(".google.api.HttpBody"), Label: descriptorpb.FieldDescriptorProto_LABEL_OPTIONAL.Enum(), JsonName: proto.String("file")},
+				{Name: proto.String("tags"), Number: proto.Int32(4), Type: descriptorpb.FieldDescriptorProto_TYPE_STRING.Enum(), Label: descriptorpb.FieldDescriptorProto_LABEL_REPEATED.Enum(), JsonName: proto.String("tags")},
+			},
+		}},
 		Service: []*descriptorpb.ServiceDescriptorProto{
 			{
 				Name: proto.String("SimService"),
@@ -161,6 +171,7 @@ func buildSimFile() protoreflect.FileDescriptor {
 					method("Plain", pv, pv, false, false, nil),
 					// the whole request (and response) is a google.api.HttpBody: raw bytes with their own content type
 					method("RawBody", ".google.api.HttpBody", ".google.api.HttpBody", false, false, httpRuleOpt(post("/p/v1/raw", "*"), 0)),
+					method("Upload", ".sim.v1.UploadRequest", pv, false, false, httpRuleOpt(post("/p/v1/upload/{name}", "file"), 0)),
 				},
 			},
 			{
